@@ -10,6 +10,7 @@ import (
 	"verif/evid"
 	"verif/kit"
 
+	"github.com/junioryono/godi/v4"
 	"pgregory.net/rapid"
 )
 
@@ -34,6 +35,7 @@ type overlapCase struct {
 	Desc       string
 	Probes     []probeRes // uses attempted after B's Close returned and before A was released
 	PostProbes []probeRes // uses attempted on scopes below a closed scope once both threads are done
+	Root       godi.Scope // the provider's root scope, fetched right after Build
 }
 
 type probeRes struct {
@@ -50,6 +52,7 @@ type overlapOpts struct {
 	ExtraWarm   int                        // more warm-up resolutions (so that scopes own instances)
 	Prep        func(*kit.World, *rapid.T) // prepare the world before Build (fault plans)
 	Points      []string                   // GateInternal: park at the n-th passage of a point whose name starts with one of these (nil = any point)
+	MutateCfg   func(*rapid.T, *kit.Config) // additions to the generated configuration
 }
 
 func obsOfKind(r *kit.Runner, from int, kind string) *kit.Obs {
@@ -63,6 +66,9 @@ func obsOfKind(r *kit.Runner, from int, kind string) *kit.Obs {
 
 func genOverlap(rt *rapid.T, oo overlapOpts) *overlapCase {
 	cfg := kit.GenConfig(rt, oo.Gen)
+	if oo.MutateCfg != nil {
+		oo.MutateCfg(rt, cfg)
+	}
 	for _, k := range oo.AKinds {
 		if k == "create" && rapid.Bool().Draw(rt, "moreInitializers") {
 			// several initializer functions: a scope creation that overlaps something runs a list of them
@@ -90,6 +96,9 @@ func genOverlap(rt *rapid.T, oo overlapOpts) *overlapCase {
 	c := &overlapCase{X: x}
 	if x.Build.Err != nil || x.Build.Panic != nil {
 		return c
+	}
+	if rootAny, err := x.R.P.Get(kit.ScopeType); err == nil {
+		c.Root, _ = rootAny.(godi.Scope)
 	}
 	// family mode (for A = Close): P -> C -> {G0..Gk}, instances in the grandchildren; A closes C, B closes P
 	if len(oo.AKinds) > 0 && oo.ExtraScopes > 0 && rapid.IntRange(0, 2).Draw(rt, "family") == 0 {
@@ -265,12 +274,14 @@ func genOverlap(rt *rapid.T, oo overlapOpts) *overlapCase {
 			return c
 		}
 		c.A = Op{Kind: "close", Scope: atag}
+	case "pclose":
+		c.A = Op{Kind: "pclose"}
 	}
 	c.GateKind = rapid.SampledFrom(oo.GateKind).Draw(rt, "gatekind")
 	if c.A.Ctx == 10 {
 		c.GateKind = kit.GateCtxDone
 	}
-	if c.A.Kind == "close" && c.GateKind != kit.GateInternal {
+	if (c.A.Kind == "close" || c.A.Kind == "pclose") && c.GateKind != kit.GateInternal {
 		c.GateKind = kit.GateCloseEnter
 	}
 	c.GateN = rapid.SampledFrom([]int{1, 1, 1, 2, 3, 4}).Draw(rt, "gaten")
@@ -319,6 +330,28 @@ func genOverlap(rt *rapid.T, oo overlapOpts) *overlapCase {
 		}
 	case "get":
 		c.B = Op{Kind: "get", Scope: rapid.SampledFrom(live).Draw(rt, "btag"), Ident: rapid.SampledFrom(ids).Draw(rt, "bid2")}
+	case "get-wired":
+		// somewhere (any live scope), a service that is constructed now and has dependencies on
+		// registered services - optional ones preferred: what it is built with is the question
+		pool := ctorIDs
+		var opt []kit.Ident
+		for _, id := range ctorIDs {
+			if ow, ok := x.M.Owner(id); ok && id.Group == "" {
+				for _, d := range x.M.Regs[ow.Reg].Deps {
+					if d.Optional && d.Builtin == 0 && len(x.M.DepTargets(d)) > 0 {
+						opt = append(opt, id)
+						break
+					}
+				}
+			}
+		}
+		if len(opt) > 0 && rapid.IntRange(0, 3).Draw(rt, "bOptBias") != 0 {
+			pool = opt
+		}
+		if len(pool) == 0 {
+			pool = ids
+		}
+		c.B = Op{Kind: "get", Scope: rapid.SampledFrom(live).Draw(rt, "btagW"), Ident: rapid.SampledFrom(pool).Draw(rt, "bidW")}
 	case "same-get-elsewhere":
 		// the same service (same registration, same cached analysis) constructed in another scope meanwhile
 		c.B = Op{Kind: "get", Scope: rapid.SampledFrom(live).Draw(rt, "btag2"), Ident: rapid.SampledFrom(ids).Draw(rt, "bid4")}
@@ -504,7 +537,8 @@ func (c *overlapCase) checkOverlapResults(prop string) *Failure {
 		return fail(prop, "no-hang", c.A.Kind+"/"+c.B.Kind, "%s", c.Hang)
 	}
 	x := c.X
-	bIsClose := c.B.Kind == "close" || c.B.Kind == "pclose" || c.B.Kind == "cancel"
+	isClose := func(k string) bool { return k == "close" || k == "pclose" || k == "cancel" }
+	bIsClose := isClose(c.B.Kind) || isClose(c.A.Kind)
 	for _, o := range x.R.Obs {
 		if o.Panic != nil {
 			return fail(prop, "no-panic", fmt.Sprintf("%s-vs-%s/gate%d", c.A.Kind, c.B.Kind, c.GateKind), "%s(s%d,%s) panicked: %v", o.Kind, o.Scope, o.Ident, o.Panic)
@@ -667,6 +701,24 @@ func TestC13Schedules(t *testing.T) {
 		GateKind: allGates, ExtraWarm: 6, ExtraScopes: 4}
 	runOverlapTest(t, "C13", "controlled-schedules",
 		"controlled two-thread programs: thread A issues Get*/CreateScope and is parked at the n-th constructor entry/exit it reaches (initializers included) or inside ctx.Done() of the context handed to CreateScope; or A closes a scope and is parked inside an instance's Close(); thread B runs one Close (A's scope, an ancestor, the provider) or a context cancellation to completion or until it blocks; if B's Close returned while A is still parked, every scope it covers is probed and must already refuse use; A is released; oracle: no panic, no hang (20 s), A returns fully constructed values or an error satisfying errors.Is(ErrScopeDisposed/ErrProviderDisposed), probes report the disposed error; non-trivial = A was parked",
+		oo,
+		func(c *overlapCase) *Failure { return c.checkOverlapResults("C13") },
+		func(c *overlapCase) bool { return true })
+}
+
+// TestC13UseDuringClose: the other way round - the Close is the operation that is
+// held (inside the Close() method of one of the instances it disposes, or at a
+// schedule point of the disposal) and a resolution or scope creation is issued
+// meanwhile on any scope: one the Close has not reached yet, one it has already
+// dealt with, one it does not cover at all.
+func TestC13UseDuringClose(t *testing.T) {
+	g13 := kit.FullOpts()
+	g13.OptionalBias = true
+	g13.DisposableBias = true
+	oo := overlapOpts{Gen: g13, AKinds: []string{"pclose", "pclose", "close"}, BKinds: []string{"get-wired", "get-wired", "get", "create"},
+		GateKind: []int{kit.GateCloseEnter, kit.GateCloseEnter, kit.GateInternal}, ExtraWarm: 8, ExtraScopes: 3}
+	runOverlapTest(t, "C13", "use-during-close",
+		"controlled two-thread programs: thread A closes the provider (or a scope) and is parked inside the Close() method of the n-th instance it disposes or at a schedule point of the disposal; thread B then resolves a service that is constructed now (optional dependencies on registered services preferred) or creates a scope, on any live scope - covered by the Close or not, reached by it or not - and runs until it returns or blocks; A is released; oracle: no panic, no hang, B returns a fully constructed and fully wired value (every registered dependency present) or an error satisfying errors.Is(ErrScopeDisposed/ErrProviderDisposed); non-trivial = A was parked",
 		oo,
 		func(c *overlapCase) *Failure { return c.checkOverlapResults("C13") },
 		func(c *overlapCase) bool { return true })
@@ -1152,6 +1204,45 @@ func TestC03Schedules(t *testing.T) {
 			}
 			obs, _ := c.X.observations()
 			return c.X.checkC03(obs)
+		},
+		func(c *overlapCase) bool { return true })
+}
+
+// ---- C18: constructions in two scopes at once: each gets its own scope's built-ins ----
+
+// sprinkleBuiltins appends context / Scope / Provider dependencies to constructors
+// (behind their other dependencies, so that other people's constructors run
+// between the start of the construction and the moment the built-in is fetched).
+func sprinkleBuiltins(rt *rapid.T, cfg *kit.Config) {
+	for i := range cfg.Regs {
+		r := &cfg.Regs[i]
+		if r.Form == kit.FormInstance {
+			continue
+		}
+		for k := rapid.IntRange(0, 2).Draw(rt, "extraBuiltins"); k > 0; k-- {
+			d := kit.DepSpec{Builtin: rapid.IntRange(1, 3).Draw(rt, "builtinKind")}
+			if rapid.IntRange(0, 5).Draw(rt, "builtinOptional") == 0 {
+				d.Optional = true
+				r.UseIn = true
+			}
+			r.Deps = append(r.Deps, d)
+		}
+	}
+}
+
+func TestC18Schedules(t *testing.T) {
+	o := c02ScheduleOpts()
+	runOverlapTest(t, "C18", "controlled-schedules",
+		"controlled two-thread programs over configurations whose constructors take context.Context / Scope / Provider behind their other dependencies (plain parameters and parameter-object fields): thread A resolves in one scope and is parked at the n-th constructor entry/exit or at a schedule point inside godi, i.e. between two of the arguments of some constructor; thread B resolves (the same service or another one) or creates a scope elsewhere and runs to completion; A is released; oracle = the C18 identity oracle on every constructor invocation of the run (injected context, Scope and Provider are those of the scope the resolution was issued on; root scope for singletons) plus no panic / no hang; non-trivial = A was parked",
+		overlapOpts{Gen: o, MutateCfg: sprinkleBuiltins, AKinds: []string{"get"}, BKinds: []string{"get", "same-get-elsewhere", "same-get-elsewhere", "create"}, GateKind: allGates, ExtraScopes: 1},
+		func(c *overlapCase) *Failure {
+			if f := c.checkOverlapResults("C18"); f != nil && (f.Oracle == "no-hang" || f.Oracle == "no-panic") {
+				return f
+			}
+			if c.Root == nil {
+				return fail("C18", "direct", "root-scope", "provider.Get(Scope) did not yield the root scope")
+			}
+			return c.X.checkC18(c.Root)
 		},
 		func(c *overlapCase) bool { return true })
 }
